@@ -5,6 +5,7 @@ CONSTANTS
   InitRestated = FALSE
   OriginFromSuper = FALSE
   AllowModifyBusy = FALSE
+  SigCheck = FALSE
   Parent <- Chain3
   Mode = "propq"
   QSels = {{3}}
